@@ -72,6 +72,8 @@ type vec struct {
 	Minimal  []zg.Line `json:"minimal"`
 	Given    hx.B      `json:"given"`
 	GivenFS  []fsText  `json:"givenfs"`
+	OText    *hx.B     `json:"otext"` // the initial origin as text, handed to the parser as it is (Gen_Zone "ofile"); nil: cfg.origin rendered
+	OSt      string    `json:"ost"`   // ... and what the specification makes of it: ok | err | amb
 	// gen
 	Undef  bool     `json:"undef"`
 	Err    bool     `json:"err"`
@@ -213,7 +215,7 @@ func replay(path, spellPath, evPath string) {
 		sum.Evaluations++
 		switch v.Kind {
 		case "zone":
-			nt, ns := replayZone(i, v, &sum, sp)
+			nt, ns := replayZone(i, v, &sum, sp, evw)
 			if nt {
 				nontrivial++
 			}
@@ -387,6 +389,9 @@ func judgeOne(lines []zg.Line, out outcome, o *zg.Observed, lineOfErr func() str
 		if ln >= 1 && ln <= len(lines) {
 			return lines[ln-1]
 		}
+		if ln == 0 && out.Err { // the specification's error belongs to no line: the parser was in error before the first one
+			return zg.Line{K: "initial-origin"}
+		}
 		return zg.Line{K: "none"}
 	}
 	switch {
@@ -464,7 +469,31 @@ func runCfgOf(c zg.Cfg, fs fstest.MapFS) zg.RunCfg {
 	return zg.RunCfg{Origin: originText(c.Origin), DefTTL: c.DefTTL, IncAllowed: c.IncAllowed, FS: fs, File: c.File.String(), NoMem: true}
 }
 
-func replayZone(i int, v *vec, sum *hx.Summary, sp *speller) (nontrivial bool, nspell int) {
+// persistent: the consumer of a C07 run (events file given) keeps calling Next after the first (nil, false); whatever
+// it is handed then counts as returned, so that the specification's record list ("no further records once an error
+// has occurred") judges it, and the history goes to Trace_Zone's sticky-error machine.
+func persistent(o *zg.Observed) *zg.Observed {
+	if len(o.After) == 0 {
+		return o
+	}
+	p := *o
+	p.Recs = append(append([]zg.Rec{}, o.Recs...), o.After...)
+	return &p
+}
+
+func emitHistory(evw *hx.Writer, i int, spelling string, c zg.RunCfg, otext *hx.B, o *zg.Observed) {
+	// (i, sp: the vector and the spelling the history belongs to -- for the driver, the specification does not look at them)
+	p := map[string]interface{}{"ev": "parser", "allowed": c.IncAllowed, "chain": false, "i": i, "sp": spelling}
+	if otext != nil {
+		p["origin"] = *otext
+	}
+	evw.Emit(p)
+	for _, e := range o.Events {
+		evw.Emit(e)
+	}
+}
+
+func replayZone(i int, v *vec, sum *hx.Summary, sp *speller, evw *hx.Writer) (nontrivial bool, nspell int) {
 	unconstrained := false
 	for _, o := range v.Outs {
 		if o.Undef {
@@ -529,11 +558,18 @@ func replayZone(i int, v *vec, sum *hx.Summary, sp *speller) (nontrivial bool, n
 			fsTexts = append(fsTexts, fsText{hx.FromString(n), hx.FromBytes(f.Data)})
 		}
 		rf.File = v.Cfg.File.String()
-		o, timedOut, _ := zg.RunBudget(rf.Text, runCfgOf(v.Cfg, fs), budget)
+		rc := runCfgOf(v.Cfg, fs)
+		if v.OText != nil {
+			rc.Origin = v.OText.String()
+		}
+		o, timedOut, _ := zg.RunBudget(rf.Text, rc, budget)
 		// the case is the failing parse itself: the exact text and include files go with it, so that the
 		// confirmation and the replay file re-execute this spelling and not another draw of the random ones
 		cs := map[string]interface{}{"cfg": v.Cfg, "lines": lines, "spelling": s.name, "text": string(rf.Text),
 			"given": hx.FromBytes(rf.Text), "givenfs": fsTexts}
+		if v.OText != nil {
+			cs["otext"], cs["origin"] = *v.OText, v.OText.String()
+		}
 		nspell++
 		if timedOut {
 			hang(sum, "zone", "ZoneParser.Next", cs)
@@ -546,8 +582,16 @@ func replayZone(i int, v *vec, sum *hx.Summary, sp *speller) (nontrivial bool, n
 			sum.Mis("zone/open-when-disallowed", fmt.Sprintf("Open(%q) although includes are not allowed", o.Opens[0]), cs)
 		}
 		lineOfErr := func() string { return errClass(&o, &rf) }
-		key, what := judge(lines, v.Outs, &o, lineOfErr)
+		seen := &o
+		if evw != nil {
+			seen = persistent(&o)
+			emitHistory(evw, i, s.name, rc, v.OText, &o)
+		}
+		key, what := judge(lines, v.Outs, seen, lineOfErr)
 		if key != "" {
+			if len(seen.Recs) > len(o.Recs) {
+				what += fmt.Sprintf(" (%d of the records were handed out after Next had returned (nil, false), Err() = %q)", len(o.After), o.ErrText)
+			}
 			sum.Mis(key, s.name+" spelling: "+what, cs)
 		}
 		if i%501 == 0 && k == 1 {
@@ -559,7 +603,7 @@ func replayZone(i int, v *vec, sum *hx.Summary, sp *speller) (nontrivial bool, n
 		selfInc = selfInc || (l.K == "include" && l.File.String() == "self") // (no Open cap without an include FS)
 	}
 	if v.Cfg.IncAllowed && hasInclude(v.Lines) && !unconstrained && !selfInc && (i%7 == 0 || len(v.Cfg.File) > 2) {
-		osRun(i, v, sum)
+		osRun(i, v, sum, evw)
 		nspell++
 	}
 	return !unconstrained, nspell
@@ -567,7 +611,7 @@ func replayZone(i int, v *vec, sum *hx.Summary, sp *speller) (nontrivial bool, n
 
 // osRun: the same zone on the real file system (no include FS): the files are written under a temporary
 // directory, the parser is given the path of the zone file, absolute $INCLUDE names get the directory as prefix.
-func osRun(i int, v *vec, sum *hx.Summary) {
+func osRun(i int, v *vec, sum *hx.Summary, evw *hx.Writer) {
 	tmp, err := os.MkdirTemp("", "zone-os-")
 	if err != nil {
 		hx.Die("tmp: %v", err)
@@ -593,15 +637,26 @@ func osRun(i int, v *vec, sum *hx.Summary) {
 	rc := runCfgOf(v.Cfg, nil)
 	rc.File = filepath.Join(tmp, filepath.FromSlash(strings.TrimLeft(top, "/")))
 	rf.File = rc.File
+	if v.OText != nil {
+		rc.Origin = v.OText.String()
+	}
 	o, timedOut, _ := zg.RunBudget(rf.Text, rc, budget)
 	cs := map[string]interface{}{"cfg": v.Cfg, "lines": v.Lines, "spelling": "os file system", "text": string(rf.Text)}
+	if v.OText != nil {
+		cs["otext"] = *v.OText
+	}
 	switch {
 	case timedOut:
 		hang(sum, "zone", "ZoneParser.Next (real file system)", cs)
 	case o.Panic != "":
 		sum.Mis("zone/panic", "panic: "+o.Panic, cs)
 	default:
-		if key, what := judge(v.Lines, v.Outs, &o, func() string { return errClass(&o, &rf) }); key != "" {
+		seen := &o
+		if evw != nil { // (no Open events without an include FS: the history is next / poll only)
+			seen = persistent(&o)
+			emitHistory(evw, i, "os file system", rc, v.OText, &o)
+		}
+		if key, what := judge(v.Lines, v.Outs, seen, func() string { return errClass(&o, &rf) }); key != "" {
 			sum.Mis(key, "on the real file system (no include FS): "+what, cs)
 		}
 	}
